@@ -145,4 +145,79 @@ example : convertInt "uint32" "-1".toList = some none := by decide
 example : convertInt "int64" "abc".toList = some none := by decide
 example : convertBool "yes".toList = some none := by decide
 
+/-! ### occurrences of a query parameter -/
+
+/-- tie: the emitted `bindQueryParams` takes the occurrences from `query[param.QueryName]`, ranges over
+ALL of them for a `repeated` field handing each occurrence as one element to the converter, and
+gives a singular field the first one; every integer conversion is written with base 10. -/
+theorem query_binding_transcribed :
+    Gen.Pipeline.queryValuesLookup = "query[param.QueryName]" ∧ Gen.Pipeline.queryListRange = "values" ∧
+    Gen.Pipeline.queryListElemArg = "v" ∧ Gen.Pipeline.querySingularArg = "values[0]" ∧
+    (∀ p ∈ Gen.Pipeline.convertBases, p.2 = "10") ∧ Gen.Pipeline.convertBases.length = 10 := by decide
+
+/-- **a repeated field receives every occurrence, in order**: when each occurrence converts, the list
+the handler sees is the list of the converted occurrences — as many elements as occurrences, nothing
+split, nothing merged. -/
+theorem mapM_some_iff {α β : Type} (conv : β → Option α) :
+    ∀ (occ : List β) (vs : List α), occ.mapM conv = some vs ↔ occ.map conv = vs.map some
+  | [], vs => by cases vs <;> simp
+  | t :: ts, vs => by
+    have ih := mapM_some_iff conv ts
+    cases hc : conv t with
+    | none => cases vs <;> simp [List.mapM_cons, hc]
+    | some v =>
+      cases hm : ts.mapM conv with
+      | none =>
+        cases vs with
+        | nil => simp [List.mapM_cons, hc, hm]
+        | cons w ws =>
+          have hno : ¬ (ts.map conv = List.map some ws) := fun h => by
+            have h2 := (ih ws).2 h
+            rw [hm] at h2
+            cases h2
+          simp [List.mapM_cons, hc, hm, hno]
+      | some l =>
+        have hl : ts.map conv = List.map some l := (ih l).1 hm
+        cases vs with
+        | nil => simp [List.mapM_cons, hc, hm]
+        | cons w ws =>
+          simp only [List.mapM_cons, hc, hm, List.map_cons, List.cons.injEq, Option.some.injEq]
+          constructor
+          · intro h
+            have h' : v :: l = w :: ws := by simpa using h
+            obtain ⟨rfl, rfl⟩ := List.cons.inj h'
+            exact ⟨rfl, hl⟩
+          · rintro ⟨rfl, h⟩
+            have hws : ts.mapM conv = some ws := (ih ws).2 h
+            rw [hm] at hws
+            cases hws
+            simp
+
+theorem list_binds_every_occurrence {α β : Type} (conv : β → Option α) (occ : List β) (vs : List α) :
+    bindList conv occ = some vs ↔ occ.map conv = vs.map some := mapM_some_iff conv occ vs
+
+theorem list_length_preserved {α β : Type} (conv : β → Option α) (occ : List β) (vs : List α)
+    (h : bindList conv occ = some vs) : vs.length = occ.length := by
+  have := congrArg List.length ((list_binds_every_occurrence conv occ vs).1 h)
+  simpa using this.symm
+
+/-- **one bad element fails the request**: if any occurrence does not convert, nothing is dispatched. -/
+theorem list_bad_element_rejected {α β : Type} (conv : β → Option α) (occ : List β) (t : β) (ht : t ∈ occ)
+    (hc : conv t = none) : bindList conv occ = none := by
+  cases h : bindList conv occ with
+  | none => rfl
+  | some vs =>
+    have hm := (list_binds_every_occurrence conv occ vs).1 h
+    have : conv t ∈ occ.map conv := List.mem_map_of_mem ht
+    rw [hm, hc] at this
+    simp at this
+
+/-- a comma is part of the element (no splitting), a leading zero is decimal, a prefix or a digit
+separator is no number (tests of the leaves, labelled as such). -/
+example : bindList (fun s : Str => some s) ["Doe, John".toList, "x".toList] = some ["Doe, John".toList, "x".toList] := by decide
+example : bindList (fun s => (convertInt "int32" s).join) ["7".toList, "1,2".toList] = none := by decide
+example : convertInt "uint64" "0010".toList = some (some 10) ∧ convertInt "uint64" "0x1F".toList = some none ∧
+    convertInt "fixed64" "1_000".toList = some none ∧ convertInt "uint64" "08".toList = some (some 8) := by decide
+example : bindSingular (fun s : Str => some s) ["first".toList, "second".toList] = some (some "first".toList) := by decide
+
 end Sebuf.C02
